@@ -2536,3 +2536,139 @@ func c16HoistCountsAll(c *Ctx) {
 		c.Fail(rule, "anchor", fr.Decl.Pos(), "no distinct-section map store found in writeBufYAMLFile")
 	}
 }
+
+// ruleClosureFollowsAll (CLOSURE-FOLLOWS-ALL; C01, C17): the recursive walks that collect a file together with the
+// files it imports (image construction order, --path sub-images, per-directory images for plugins) recurse from a
+// loop over the file's dependency list. The descriptor keeps listing every dependency, so the walk has to follow
+// every one of them - an import the compiler flagged as unused is still an import: skipping it produces an image
+// (and a CodeGeneratorRequest) that names a dependency it does not contain. In package bufimage, a loop over
+// GetDependency() whose body calls the enclosing function again contains no `continue` / `break`.
+func ruleClosureFollowsAll(c *Ctx, rule string) {
+	c.Rule(rule, "recursive import walks follow every listed dependency", 2)
+	p := c.P
+	pk := p.Pkg("private/bufpkg/bufimage")
+	if pk == nil {
+		c.Fail(rule, "anchor", token.NoPos, "bufimage not found")
+		return
+	}
+	info := pk.TypesInfo
+	n := 0
+	for _, fr := range p.FuncsOf(pk) {
+		if fr.Decl.Body == nil {
+			continue
+		}
+		ast.Inspect(fr.Decl.Body, func(m ast.Node) bool {
+			rs, ok := m.(*ast.RangeStmt)
+			if !ok || !strings.Contains(exprString(rs.X), "Dependency") {
+				return true
+			}
+			recursive := false
+			ast.Inspect(rs.Body, func(x ast.Node) bool {
+				if call, ok := x.(*ast.CallExpr); ok && Callee(info, call) == fr.Obj {
+					recursive = true
+				}
+				return true
+			})
+			if !recursive {
+				return true
+			}
+			n++
+			skips := 0
+			inspectNoFuncLit(rs.Body, func(x ast.Node) bool {
+				if b, ok := x.(*ast.BranchStmt); ok && (b.Tok == token.CONTINUE || b.Tok == token.BREAK || b.Tok == token.GOTO) {
+					skips++
+				}
+				return true
+			})
+			c.Ob(rule, declName(fr.Decl), rs.Pos(), skips == 0, true, "the loop over %s recurses for every dependency (continue/break statements in it: %d)", exprString(rs.X), skips)
+			return true
+		})
+	}
+	if n == 0 {
+		c.Fail(rule, "anchor", token.NoPos, "no recursive loop over a dependency list found in bufimage")
+	}
+}
+
+// c17OutputCacheKey (OUTPUT-CACHE-KEY): the response writer keeps one staging bucket per plugin output location so
+// that later plugins (insertion points) see the files of earlier ones for the SAME location. "Files returned by
+// plugins are written only beneath that plugin's output location" then requires the cache to be keyed by the location
+// itself: the key of every lookup and store on the staging-bucket map is the method's own location parameter, not a
+// value derived from it (filepath.Dir of an archive path makes two archives in one directory, or an archive and its
+// parent directory, share a bucket: one plugin's files land in the other's output and duplicate names overwrite each
+// other silently).
+func c17OutputCacheKey(c *Ctx) {
+	const rule = "OUTPUT-CACHE-KEY"
+	c.Rule(rule, "the staging-bucket cache is keyed by the output location the method was given", 4)
+	p := c.P
+	pk := p.Pkg("private/bufpkg/bufprotoplugin/bufprotopluginos")
+	if pk == nil {
+		c.Fail(rule, "anchor", token.NoPos, "bufprotopluginos not found")
+		return
+	}
+	n := 0
+	for _, sf := range p.SSAFuncsOf([]*packages.Package{pk}) {
+		if sf.Signature.Recv() == nil {
+			continue
+		}
+		for _, b := range sf.Blocks {
+			for _, ins := range b.Instrs {
+				var m, key ssa.Value
+				switch x := ins.(type) {
+				case *ssa.Lookup:
+					m, key = x.X, x.Index
+				case *ssa.MapUpdate:
+					m, key = x.Map, x.Key
+				default:
+					continue
+				}
+				mt, ok := m.Type().Underlying().(*types.Map)
+				if !ok || !strings.Contains(namedName(mt.Elem()), "Bucket") {
+					continue
+				}
+				if _, isField := func() (*ssa.FieldAddr, bool) {
+					u, ok := m.(*ssa.UnOp)
+					if !ok {
+						return nil, false
+					}
+					fa, ok := u.X.(*ssa.FieldAddr)
+					return fa, ok
+				}(); !isField {
+					continue
+				}
+				n++
+				isParam := isParamOrItsCell(key)
+				c.Ob(rule, fmt.Sprintf("%s/key#%d", ssaFuncName(sf), n), ins.Pos(), isParam, true, "the cache key is the method's location parameter itself: %v (%s)", isParam, key.String())
+			}
+		}
+	}
+	if n == 0 {
+		c.Fail(rule, "anchor", token.NoPos, "no staging-bucket map access found in the response writer")
+	}
+}
+
+// isParamOrItsCell: v is a parameter, or the load of a cell that only ever holds a parameter (a parameter captured by a
+// closure is spilled to such a cell).
+func isParamOrItsCell(v ssa.Value) bool {
+	v = stripConv(v)
+	if _, ok := v.(*ssa.Parameter); ok {
+		return true
+	}
+	u, ok := v.(*ssa.UnOp)
+	if !ok || u.Op != token.MUL {
+		return false
+	}
+	al, ok := u.X.(*ssa.Alloc)
+	if !ok {
+		return false
+	}
+	stores := 0
+	for _, ref := range *al.Referrers() {
+		if st, ok := ref.(*ssa.Store); ok && st.Addr == ssa.Value(al) {
+			stores++
+			if _, isP := stripConv(st.Val).(*ssa.Parameter); !isP {
+				return false
+			}
+		}
+	}
+	return stores == 1
+}
